@@ -2,69 +2,48 @@
   T1c / C14 — `FastaIndex.sequence_bytes` as translated from the Python source (`Gen/Imp3.lean`, over `PyRt.BinFile` = bytes + cursor
   with `seek` / `seek(…, 1)` / `read`, checked `//` and `%`) against the model's `sequenceBytes` (`Model/Fasta.lean`, absolute positions).
 
-  RESULT.  The tie as first stated — for ALL `info`, `start`, `stop` — is FALSE: the source raises OSError at EVERY `fh.seek(…)` with a
-  negative target, including the relative seeks `fh.seek(line_end_bytes, 1)` INSIDE the whole-lines loop; the model checks `pos0 < 0` and
-  `pos1 < 0` only (its `readWholeLines` lets the position go negative and keeps reading from byte 0).  Counter-example
-  (`sequence_bytes_source_differs`, confirmed against /repo/src with a real file: `OSError [Errno 22]`):
+  RESULT (after the model repair W12).  The tie holds for ALL `info`, `start`, `stop`, with NO hypothesis.
+  History: the source raises OSError at EVERY `fh.seek(…)` with a negative target, including the relative seeks
+  `fh.seek(line_end_bytes, 1)` INSIDE the whole-lines loop; the model used to check `pos0 < 0` and `pos1 < 0` only (its `readWholeLines`
+  let the position go negative and kept reading from byte 0), so the tie was false on
       file = b"AC", info = FastaInfo(length 8, file_offset 3, residues_per_line 4, max_line_length 1), start = 1, end = 8
-      source: OSError (`Err.other`);  model: `.ok` with data b"AC".
-  It needs `line_end_bytes = max_line_length - residues_per_line < 0` AND a short read at the end of the file; no index the indexer
-  writes has `residues_per_line > max_line_length`.  Proved:
-   * `sequence_bytes_source_exact` — NO hypothesis: the source is the model plus exactly that check (`loopSeekNeg`, the model's own
-     recursion with the test added); all other exception classes agree (`.zeroDiv` for `rpl = 0` first, `.other` for the absolute seek
-     and for the relative seek after the first line);
-   * `sequence_bytes_is_source_partial` — under `info.rpl ≤ info.mll` the tie as stated: same bytes, same exception class;
-   * `sequence_bytes_handle` / `sequence_bytes_source_full` — where the file handle and the buffer's cursor are left;
+      source: OSError (`Err.other`, confirmed against /repo/src with a real file: `OSError [Errno 22]`);  old model: `.ok` with data b"AC".
+  (It needs `line_end_bytes = max_line_length - residues_per_line < 0` AND a short read at the end of the file; no index the indexer
+  writes has `residues_per_line > max_line_length`.)  `sequenceBytes` now runs the loop through `readWholeLinesChk`, which raises there
+  (`sequence_bytes_loop_seek_oserror`: on that input source AND model give `.error .other`); for `rpl ≤ mll` nothing changed
+  (`readWholeLinesChk_nonneg`, `Proofs/SeekChk.lean`).  Proved:
+   * `sequence_bytes_is_source` — NO hypothesis: same bytes, same exception class (`.zeroDiv` for `rpl = 0` first, `.other` for a
+     negative target of the absolute seek, of the relative seek after the first line, of a relative seek inside the loop);
+   * `sequence_bytes_source_full` / `sequence_bytes_handle` — NO hypothesis: where the file handle and the buffer's cursor are left;
+   * `sequence_bytes_loop_seek` — where a relative seek inside the loop has a negative target (`loopSeekNeg`) source and model raise
+     the same exception (this replaces `sequence_bytes_source_exact`, which said that the source was the old model plus that check;
+     `sequence_bytes_is_source_partial`, the tie under `rpl ≤ mll`, is subsumed by `sequence_bytes_is_source`);
    * the handle's initial position never matters (every statement is for an arbitrary `pos`; the first operation is an absolute seek).
-  Helper lemmas: `Proofs/ImpFileIO.lean`.
+  Helper lemmas: `Proofs/ImpFileIO.lean`, `Proofs/SeekChk.lean`.
 -/
 import AgpTpf.Proofs.ImpFileIO
 namespace AgpTpf.C14
 open AgpTpf AgpTpf.ImpFileIO
 
-/- the statement as asked, FALSE without a hypothesis (see `sequence_bytes_source_differs`):
+/-- 4a. THE TIE, for all inputs: the bytes the translated `sequence_bytes` returns / the exception it raises are the model's.  The
+    initial position `pos` of the handle does not occur on the right. -/
 theorem sequence_bytes_is_source (file : Bytes) (pos : Nat) (info : FastaInfo) (start stop : Int) :
     (Gen.Imp.FastaIndex_sequence_bytes_imp { data := file, pos := pos } info start stop).map (fun r => r.2.data) =
-      (sequenceBytes file info start stop).map (·.data)
--/
-
-/-- 4a. EXACT, for all inputs: the bytes the translated `sequence_bytes` returns / the exception it raises are the model's, except that
-    where the model succeeds and a relative seek inside the whole-lines loop has a negative target (`loopSeekNeg`) the source raises
-    OSError.  The initial position `pos` of the handle does not occur on the right. -/
-theorem sequence_bytes_source_exact (file : Bytes) (pos : Nat) (info : FastaInfo) (start stop : Int) :
-    (Gen.Imp.FastaIndex_sequence_bytes_imp { data := file, pos := pos } info start stop).map (fun r => r.2.data) =
-      match sequenceBytes file info start stop with
-      | .error e => .error e
-      | .ok log => if loopSeekNeg file info start stop then .error .other else .ok log.data := by
-  rw [seqBytesSrc_eq]
-  cases sequenceBytes file info start stop with
-  | error e => rfl
-  | ok log => dsimp only; split <;> rfl
-
-/-- 4b. THE TIE under `residues_per_line ≤ max_line_length` (every index the indexer writes; the model's `LaidOut` theorems assume
-    `R ≤ M` too): same bytes, same exception class — `.zeroDiv` for `rpl = 0`, `.other` for a negative seek target. -/
-theorem sequence_bytes_is_source_partial (file : Bytes) (pos : Nat) (info : FastaInfo) (start stop : Int)
-    (hle : info.rpl ≤ info.mll) :
-    (Gen.Imp.FastaIndex_sequence_bytes_imp { data := file, pos := pos } info start stop).map (fun r => r.2.data) =
       (sequenceBytes file info start stop).map (·.data) := by
-  rw [sequence_bytes_source_exact]
-  cases h : sequenceBytes file info start stop with
-  | error e => rfl
-  | ok log => dsimp only; rw [loopSeekNeg_of_le file info start stop hle log h]; rfl
+  rw [seqBytesSrc_eq]
+  cases sequenceBytes file info start stop <;> rfl
 
-/-- 4c. the complete result under the same hypothesis: the handle still holds the file and is left at `seqEndPos` (the position after the
-    last `read` / relative seek, computed with the model's functions); the buffer's cursor is at its end (the caller `seek(0)`s). -/
-theorem sequence_bytes_source_full (file : Bytes) (pos : Nat) (info : FastaInfo) (start stop : Int) (hle : info.rpl ≤ info.mll) :
+/-- 4b. the complete result, for all inputs: the handle still holds the file and is left at `seqEndPos` (the position after the last
+    `read` / relative seek, computed with the model's functions); the buffer's cursor is at its end (the caller `seek(0)`s). -/
+theorem sequence_bytes_source_full (file : Bytes) (pos : Nat) (info : FastaInfo) (start stop : Int) :
     Gen.Imp.FastaIndex_sequence_bytes_imp { data := file, pos := pos } info start stop =
       (sequenceBytes file info start stop).map (fun log =>
         (({ data := file, pos := (seqEndPos file info start stop).toNat } : PyRt.BinFile),
          ({ data := log.data, pos := log.data.length } : PyRt.BytesIO))) := by
   rw [seqBytesSrc_eq]
-  cases h : sequenceBytes file info start stop with
-  | error e => rfl
-  | ok log => dsimp only; rw [loopSeekNeg_of_le file info start stop hle log h]; rfl
+  cases sequenceBytes file info start stop <;> rfl
 
-/-- 4d. where the handle is left, WITHOUT hypothesis: whenever the translated source returns -/
+/-- 4c. where the handle is left, whenever the translated source returns -/
 theorem sequence_bytes_handle (file : Bytes) (pos : Nat) (info : FastaInfo) (start stop : Int) (fh : PyRt.BinFile) (seq : PyRt.BytesIO)
     (h : Gen.Imp.FastaIndex_sequence_bytes_imp { data := file, pos := pos } info start stop = .ok (fh, seq)) :
     fh = { data := file, pos := (seqEndPos file info start stop).toNat } ∧ seq.pos = seq.data.length := by
@@ -73,10 +52,25 @@ theorem sequence_bytes_handle (file : Bytes) (pos : Nat) (info : FastaInfo) (sta
   | error e => rw [hm] at h; cases h
   | ok log =>
     rw [hm] at h
-    dsimp only at h
-    split at h
-    · cases h
-    · cases h; exact ⟨rfl, rfl⟩
+    cases h
+    exact ⟨rfl, rfl⟩
+
+/-- 4d. the case the model did not check before W12: where a relative seek inside the whole-lines loop has a negative target
+    (`loopSeekNeg`), source and model raise, the same exception (`.zeroDiv` / `.other` from an earlier check, else `.other` from the
+    loop: `sequence_bytes_loop_seek_oserror` is an input where it is the loop) -/
+theorem sequence_bytes_loop_seek (file : Bytes) (pos : Nat) (info : FastaInfo) (start stop : Int)
+    (h : loopSeekNeg file info start stop = true) :
+    ∃ e, Gen.Imp.FastaIndex_sequence_bytes_imp { data := file, pos := pos } info start stop = .error e ∧
+      sequenceBytes file info start stop = .error e := by
+  obtain ⟨e, he⟩ := sequenceBytes_loopSeekNeg file info start stop h
+  exact ⟨e, by rw [seqBytesSrc_eq, he], he⟩
+
+/-- under `residues_per_line ≤ max_line_length` (every index the indexer writes; the model's `LaidOut` theorems assume `R ≤ M` too) the
+    new check never fires: the checked loop of `sequenceBytes` is the unchecked recursion the layout theorems are written over -/
+theorem sequence_bytes_loop_unchanged (file : Bytes) (info : FastaInfo) (k : Nat) (p : Int) (acc : ReadLog)
+    (hle : info.rpl ≤ info.mll) (hp : 0 ≤ p) :
+    readWholeLinesChk file info.rpl (info.mll - info.rpl) k p acc = .ok (readWholeLines file info.rpl (info.mll - info.rpl) k p acc) :=
+  readWholeLinesChk_nonneg file _ _ (by omega) k p acc hp
 
 /-! ### examples: a 2-record file `>a\nACGT\nNNAC\nGT\n>b\nTTTT\n` -/
 
@@ -106,16 +100,20 @@ example : Gen.Imp.FastaIndex_sequence_bytes_imp { data := seqFile, pos := 0 } { 
 example : Gen.Imp.FastaIndex_sequence_bytes_imp { data := seqFile, pos := 0 } { seqInfoA with fileOffset := -9 } 3 10 = .error .other := by
   rfl
 
-/-- THE DIFFERENCE (why 4b has its hypothesis): `rpl = 4 > mll = 1`, a 2-byte file.  First read at byte 3 (past the end): nothing;
-    `seek(-3, 1)` → 0; in the loop `read(4)` returns 2 bytes, `seek(-3, 1)` → −1: the source raises OSError, the model goes on. -/
-theorem sequence_bytes_source_differs :
+/-- THE FORMER DIFFERENCE (was `sequence_bytes_source_differs`; the old model returned `.ok` with b"AC" here): `rpl = 4 > mll = 1`, a
+    2-byte file.  First read at byte 3 (past the end): nothing; `seek(-3, 1)` → 0; in the loop `read(4)` returns 2 bytes, `seek(-3, 1)`
+    → −1: the source raises OSError, and so does the model; it is the check inside the loop that fires (`loopSeekNeg`). -/
+theorem sequence_bytes_loop_seek_oserror :
     Gen.Imp.FastaIndex_sequence_bytes_imp { data := [65, 67], pos := 0 } { length := 8, fileOffset := 3, rpl := 4, mll := 1 } 1 8 =
       .error .other ∧
-    (sequenceBytes [65, 67] { length := 8, fileOffset := 3, rpl := 4, mll := 1 } 1 8).map (·.data) = .ok [65, 67] ∧
+    sequenceBytes [65, 67] { length := 8, fileOffset := 3, rpl := 4, mll := 1 } 1 8 = .error .other ∧
     loopSeekNeg [65, 67] { length := 8, fileOffset := 3, rpl := 4, mll := 1 } 1 8 = true := by
   exact ⟨by rfl, by rfl, by decide +kernel⟩
 
-/-- `rpl ≤ mll` is sufficient, not necessary: with `rpl > mll` and no short read the two still agree -/
+/-- the hypothesis of 4d is satisfiable (the input above) -/
+example : loopSeekNeg [65, 67] { length := 8, fileOffset := 3, rpl := 4, mll := 1 } 1 8 = true := by decide +kernel
+
+/-- with `rpl > mll` and no short read no seek goes negative: both return, the same bytes -/
 example :
     (Gen.Imp.FastaIndex_sequence_bytes_imp { data := seqFile, pos := 0 } { length := 8, fileOffset := 3, rpl := 4, mll := 1 } 1 8).map
       (fun r => r.2.data) = .ok [65, 67, 71, 84, 67, 71, 84, 10] ∧
